@@ -330,6 +330,8 @@ def finish(pid, tier, level, coverage, assumptions, viols, t0, seed=0):
     bykey = {}
     for v in new:
         bykey.setdefault(v.get("key", "?"), v)
+    if os.environ.get("VERIF_DUMP_VIOLS"):
+        json.dump(sorted(bykey.values(), key=lambda v: v.get("key", "")), open(os.environ["VERIF_DUMP_VIOLS"], "w"), indent=1)
     n = 0
     for k, v in sorted(bykey.items()):
         n += 1
